@@ -23,6 +23,9 @@ CLAIMED = {
     "C01": ("Error bounds of the documented stopping rules are Coq theorems for every well-formed MDP, gamma in (0,1), epsilon, start state, checkpoint setting and run length: VI/span < epsilon, VI/max_diff values < epsilon and policy < 2 epsilon, PI < epsilon/gamma (span) and 2 epsilon/gamma (max_diff) under the hypothesis the proof forces (last evaluation converged; the unconditional statement is refuted in Coq by a witness that replays on the real code - open known finding), any block Gauss-Seidel sweep (semi-async) < epsilon and 2 gamma epsilon/(1-gamma). Whole runs of VI, PI and SAVI (fixed and shuffled) are compared bit-exactly with the kernel-evaluated model; returned policies are evaluated exactly against exact V*.",
             "Coq 8.16.1 kernel; solver state machines hand-modelled (Model/Solvers.v) and tied by whole-run correspondence; existence of V*/v_pi not proved (bounds hold for every solution, uniqueness proved); floating point outside the model.",
             "Coq proof of a-priori bounds lifted to solver runs + bit-exact run correspondence + exact policy evaluation oracle", "6 C01"),
+    "C08": ("solve() of every solver is proved equal to the interpretation of the loop skeleton translated from ITS source on every run; for that loop: at most k further iterations, iteration = number of sweeps, stop at the FIRST passing test, convergence reported iff the last test passed, values = that many reference backups of the start values (VI spelled out), thresholds equal the documented formulas (about the translated formulas), solve(k1);solve(k2) = solve(k1+k2) for all five solvers, initial values = map initial_value. Histories of solve() calls (before and after convergence) are compared bit-exactly with the kernel-evaluated model and with a single solve(sum k).",
+            "Coq 8.16.1 kernel; translators gen_loops.py / gen_threshold.py (fail-closed); _iteration_step bodies hand-modelled and tied by correspondence.",
+            "Coq proof over source-translated loop skeletons and thresholds + bit-exact history correspondence", "6 C08"),
 }
 
 man = {
